@@ -13,47 +13,7 @@ from pyvc.interp import ClassRef
 GROUPS = []
 
 
-def mk_arg(c, kind, name):
-    """symbolic argument of a given kind (typed so that counter-models can be replayed natively)"""
-    if kind == 'int':
-        return c.named_int(name)
-    if kind == 'optint':
-        return c.named_int(name) if c.choice(2) else None
-    if kind == 'bool':
-        return c.named_bool(name)
-    if kind == 'str':
-        return sym.s_opaque(c.opaque_text('A' + name))
-    if kind == 'optstr':
-        return sym.s_opaque(c.opaque_text('A' + name)) if c.choice(2) else None
-    if kind == 'char':
-        return sym.s_from_chars([c.named_int('cp_' + name, 32, 126)])
-    if kind == 'settings':
-        S = c.opaque_text('S' + name, 1)
-        S.kind = 'setting'
-        return PList([PObj('AnsiSetting', {'_str': sym.s_opaque(S)})])
-    if kind == 'optsettings':
-        if c.choice(2):
-            return mk_arg(c, 'settings', name)
-        return None
-    if kind == 'operand':
-        k = c.choice(3)
-        if k == 0:
-            return ab.abstract_ansistring(c, 'op' + name)[0]
-        if k == 1:
-            T = c.opaque_text('Top' + name)
-            T.escfree = True
-            return sym.s_opaque(T)
-        inner = ab.abstract_ansistring(c, 'ow' + name)[0]
-        return PObj('AnsiStr', {'__payload__': sym.s_opaque(c.opaque_text('Pay' + name)), '_s': inner})
-    if kind == 'index':
-        k = c.choice(2)
-        if k == 0:
-            return c.named_int(name)
-        return PSlice(mk_arg(c, 'optint', name + '_a'), mk_arg(c, 'optint', name + '_b'), None)
-    if kind == 'any':
-        import z3
-        return summaries.AbsAny(z3.Const('arg_' + name, ab.ANY))
-    raise ValueError(kind)
+from pyvc.argkinds import mk_arg  # noqa: E402
 
 
 # AnsiStr method -> (positional argument kinds, keyword argument kinds, reference method on AnsiString, AnsiString
@@ -153,7 +113,21 @@ def z2_task(envr, item):
         fields = {'mname': refname or mname, 'margs': margs, 'mkwargs': PDict(list(kwargs.items())),
                   'mutator': mutator, 'wrapped': inner, 'wrapped_before': before}
         run_contract(envr, c, 'AnsiStr.' + mname, x, args, kwargs, CL_Z2, fields=fields, raises=RAISES_ANY)
-    return ContractRun(body, CL_Z2, raises=RAISES_ANY, use=('GENERIC',))
+    def pool(envr):
+        import itertools
+        from pyvc.argkinds import native_pool, native_receivers
+        from pyvc.harness import native_copy
+        AS = envr.program.modules['ansi_string'].native.AnsiStr
+        pools = [native_pool(envr, k) for k in pos]
+        kwp = [[(n, v) for v in native_pool(envr, k)] for n, k in kw.items()]
+        for base in native_receivers(envr):
+            for combo in itertools.product(*pools):
+                for kwc in itertools.product(*kwp):
+                    x = AS(base)
+                    yield ('AnsiStr.' + mname, x, list(combo), dict(kwc),
+                           {'mname': refname or mname, 'margs': tuple(combo), 'mkwargs': dict(kwc), 'mutator': mutator,
+                            'wrapped': x._s, 'wrapped_before': native_copy(x._s)})
+    return ContractRun(body, CL_Z2, raises=RAISES_ANY, use=('GENERIC',), pool=pool)
 
 
 RAISES_ANY = {'TypeError': None, 'ValueError': None, 'IndexError': None}
@@ -322,7 +296,18 @@ def v3_task(envr, item):
         fields = {'mname': mname, 'margs': margs}
         run_contract(envr, c, 'AnsiString.' + mname, s, a1 + [inplace] + a2, {}, CL_V3 if not a2 else CL_V3[:2],
                      fields=fields, raises=RAISES_V3)
-    return ContractRun(body, CL_V3 if not post else CL_V3[:2], raises=RAISES_V3, use=('ABS', 'SL'))
+    def pool(envr):
+        import itertools
+        from pyvc.argkinds import native_pool, native_receivers
+        p1 = [native_pool(envr, k) for k in pre]
+        p2 = [native_pool(envr, k) for k in post]
+        for base in native_receivers(envr):
+            for c1 in itertools.product(*p1):
+                for inp in (False, True):
+                    for c2 in itertools.product(*p2):
+                        yield ('AnsiString.' + mname, base, list(c1) + [inp] + list(c2), {},
+                               {'mname': mname, 'margs': tuple(c1)})
+    return ContractRun(body, CL_V3 if not post else CL_V3[:2], raises=RAISES_V3, use=('ABS', 'SL'), pool=pool)
 
 
 GROUPS.append(Group('V3', 'in-place variants return the receiver and equal the copying variant; the copying variant leaves the '
